@@ -20,9 +20,9 @@ def run(run):
            name='ModelSM attackers / defenses / extras slice (state space the round trips sample from)')
     maps_small = ['plain', 'yamlflow']
     maps_all = ['plain', 'colon', 'yamlbool', 'yamlfloat', 'yamlflow', 'unicode', 'null', 'tilde', 'blank', 'newline', 'quote', 'int']
-    run.gen_replay('Gen_Model', 'Gen_Model.cfg', A, {'langs': langs, 'namemaps': maps_small},
-                   env={'VERIF_LANG': 'LTiny', 'VERIF_DEPTH': 3, 'VERIF_MAXREJ': 0}, timeout=1500,
-                   name='every accepted ModelSM behaviour of depth 3 on LTiny, 2 name maps')
+    run.gen_replay('Gen_Model', 'Gen_Model_states.cfg', A, {'langs': langs, 'namemaps': maps_small},
+                   env={'VERIF_LANG': 'LTiny', 'VERIF_DEPTH': 3 if quick else 4, 'VERIF_MAXREJ': 0}, timeout=1500,
+                   name='every distinct ModelSM state reachable by <= 3-4 accepted calls on LTiny, 2 name maps')
     n = 500 if quick else 12000
     if quick:      # a seeded third of the name maps per run (always with the plain one)
         k = run.seed % 3
